@@ -1,6 +1,6 @@
 #!/bin/sh
 # tools/coqchk_all.sh — independent re-check of every compiled property file and everything it depends on with coqchk,
-# and the axioms they rely on (-o).  Takes 15-30 minutes and several GB; not part of a tier.  Writes coqchk_report.txt.
+# and the axioms they rely on (-o).  Takes about 40 minutes and several GB; not part of a tier.  Writes coqchk_report.txt.
 cd /verif/coq || exit 2
 make -j14 >/dev/null 2>&1
 mods=$(ls props/*.v | sed 's#props/\(.*\)\.v#EASProps.\1#')
